@@ -89,11 +89,12 @@ var c13Contents = []c13ContentSpec{
 	{"32768B-last-byte-differs", 32768, true},
 	{"proper-prefix-20000B", 20000, false},
 	{"proper-extension-40000B", 40000, false},
+	{"20000B-last-byte-differs", 20000, true}, // same length as c7, differs only in the final partial 16384-chunk
 	{"3MiB", c13MiB3, false},                  // thorough only
 	{"3MiB-last-byte-differs", c13MiB3, true}, // thorough only
 }
 
-const c13QuickContents = 9
+const c13QuickContents = 10
 
 var c13BytesCache = map[string][]byte{}
 
@@ -113,6 +114,19 @@ func c13Bytes(id string) []byte {
 }
 
 func c13BytesUncached(id string) []byte {
+	if strings.HasPrefix(id, "p") {
+		// "p<len>": the first len bytes of the stream; "p<len>^<off>": the same with the byte at off flipped
+		var n, off int
+		if k, _ := fmt.Sscanf(id, "p%d^%d", &n, &off); k == 2 && off >= 0 && off < n && n <= c13MiB3+32 {
+			b := append([]byte{}, c13P(n)...)
+			b[off] ^= 0x55
+			return b
+		}
+		if k, _ := fmt.Sscanf(id, "p%d", &n); k == 1 && n >= 0 && n <= c13MiB3+32 && !strings.Contains(id, "^") {
+			return append([]byte{}, c13P(n)...)
+		}
+		panic("c13: bad content id " + id)
+	}
 	i, err := strconv.Atoi(strings.TrimPrefix(id, "c"))
 	if err != nil || i < 0 || i >= len(c13Contents) {
 		panic("c13: bad content id " + id)
@@ -128,6 +142,13 @@ func c13BytesUncached(id string) []byte {
 func c13Describe(id string) string {
 	if strings.HasPrefix(id, "raw:") {
 		return fmt.Sprintf("%d raw bytes", len(id)-4)
+	}
+	if strings.HasPrefix(id, "p") {
+		var n, off int
+		if k, _ := fmt.Sscanf(id, "p%d^%d", &n, &off); k == 2 {
+			return fmt.Sprintf("%s=%dB-stream-prefix-with-byte-%d-flipped", id, n, off)
+		}
+		return id + "=stream-prefix"
 	}
 	i, _ := strconv.Atoi(strings.TrimPrefix(id, "c"))
 	if i >= 0 && i < len(c13Contents) {
@@ -704,7 +725,7 @@ func c13CleanDrain() {
 // ---------------------------------------------------------------- test entry
 
 type c13Replay struct {
-	Part string `json:"part"` // crash, interleave, bfs, conf, history
+	Part string `json:"part"` // crash, interleave, bfs, conf, chunk, history
 	// crash
 	Prefix  int    `json:"prefix,omitempty"`
 	Choice  []int8 `json:"choice,omitempty"`
@@ -781,6 +802,14 @@ func TestVerifC13(t *testing.T) {
 		names = append(names, fmt.Sprintf("%s(full=%v)", v.Name, v.Full))
 		if c.replay == nil || c.replay.Part == "conf" {
 			c13PartConf(c, v)
+		}
+	}
+	for _, v := range variants {
+		if c.replay != nil && c.replay.FS != "" && c.replay.FS != v.Name && len(variants) > 1 {
+			continue
+		}
+		if c.replay == nil || c.replay.Part == "chunk" {
+			c13PartChunk(c, v)
 		}
 	}
 	tB := time.Now()
